@@ -30,49 +30,77 @@ VARIABLES l,   \* next trace line to consume
 tvars == <<l, S, W>>
 
 ToSet(seq) == {seq[i] : i \in DOMAIN seq}
-F(x) == Focus = "all" \/ Focus = x
+
+\* with VIP_DEBUG=1 the first failing comparison of a rejected line is printed
+Debug == "VIP_DEBUG" \in DOMAIN IOEnv /\ IOEnv.VIP_DEBUG = "1"
+Chk(label, cond) == IF cond THEN TRUE ELSE (Debug => PrintT(<<"MISMATCH at line", l, label>>)) /\ FALSE
+AllAspects == {"nodes", "peers", "ledger", "total", "links", "stats", "hosts", "nonce", "time",
+               "auth", "billing", "lowbal", "refused", "withdraw", "sel", "reg", "uri", "exact"}
+Aspects == CASE Focus = "all"    -> AllAspects
+             [] Focus = "nonce"  -> {"nonce"}
+             [] Focus = "peers"  -> {"peers"}
+             [] Focus = "ledger" -> {"ledger", "total"}
+             [] Focus = "C01"    -> {"total"}
+             [] Focus = "C02"    -> {"ledger", "billing"}
+             [] Focus = "C03"    -> {"lowbal"}
+             [] Focus = "C04"    -> {"auth"}
+             [] Focus = "C05"    -> {"nonce"}
+             [] Focus = "C06"    -> {"refused"}
+             [] Focus = "C07"    -> {"withdraw"}
+             [] Focus = "C08"    -> {"sel", "time"}
+             [] Focus = "C09"    -> {"reg"}
+             [] Focus = "C11"    -> {"peers"}
+             [] Focus = "C19"    -> {"uri"}
+F(x) == x \in Aspects
 
 TInit == l = 1 /\ S = InitStore /\ W = [nodes |-> {}, accts |-> {}]
 
 -----------------------------------------------------------------------------
 (* Projection of a specification state, compared with the logged one *)
+CreditEq(logged, b) == logged.account = b.account /\ logged.credit = b.credit
 BalEq(logged, b) == logged.account = b.account /\ logged.credit = b.credit /\ logged.deposit = 0
 
 ObsNodes(T, st)  == /\ DOMAIN st.node = DOMAIN T.node
                     /\ \A n \in DOMAIN T.node : st.node[n] = T.node[n]
 ObsPeers(T, st)  == \A n \in DOMAIN T.node \cap DOMAIN st.peers :
                         ToSet(st.peers[n]) = Tracked(T, n) \cap DOMAIN T.node
-ObsBals(T, st)   == /\ \A n \in DOMAIN T.node \cap DOMAIN st.bal : BalEq(st.bal[n], NodeBal(T, n))
-                    /\ \A a \in DOMAIN st.acct : BalEq(st.acct[a], AcctBal(T, a))
+\* deposits are not a store matter: the pool specification compares them (VipPoolTrace)
+ObsBals(T, st)   == /\ \A n \in DOMAIN T.node \cap DOMAIN st.bal : CreditEq(st.bal[n], NodeBal(T, n))
+                    /\ \A a \in DOMAIN st.acct : CreditEq(st.acct[a], AcctBal(T, a))
 ObsLinks(T, st)  == /\ DOMAIN st.link = {n \in DOMAIN T.link : n \in W.nodes}
                     /\ \A n \in DOMAIN st.link : st.link[n] = T.link[n]
                     /\ \A a \in DOMAIN st.anodes : ToSet(st.anodes[a]) = {n \in DOMAIN T.link : T.link[n] = a}
 
+\* the ledger total recomputed from the logged per-account / per-node balances
+LoggedTotal(st) ==
+    SumOver([a \in DOMAIN st.acct |-> st.acct[a].credit], DOMAIN st.acct)
+    + SumOver([n \in DOMAIN st.bal |-> IF n \in DOMAIN st.link THEN 0 ELSE st.bal[n].credit], DOMAIN st.bal)
+
 ObsOK(T, st) ==
-    /\ F("nodes")  => ObsNodes(T, st)
-    /\ F("peers")  => ObsPeers(T, st)
-    /\ F("ledger") => ObsBals(T, st) /\ st.stats.credit = TotalCredit(T)
-    /\ F("links")  => ObsLinks(T, st)
-    /\ F("stats")  => StatsOK(T, st.stats)
+    /\ Chk("nodes@StoreTrace:76", F("nodes")  => ObsNodes(T, st))
+    /\ Chk("peers@StoreTrace:77", F("peers")  => ObsPeers(T, st))
+    /\ Chk("ledger@StoreTrace:78", F("ledger") => ObsBals(T, st))
+    /\ Chk("total@StoreTrace:79", F("total")  => st.stats.credit = TotalCredit(T) /\ LoggedTotal(st) = TotalCredit(T))
+    /\ Chk("links@StoreTrace:80", F("links")  => ObsLinks(T, st))
+    /\ Chk("stats@StoreTrace:81", F("stats")  => StatsOK(T, st.stats))
 
 (* With a narrow focus, continue from the logged observables plus the      *)
 (* hidden parts (recorded peer timestamps, nonce table) of the model.      *)
 Adopt(T, st) ==
-    [now   |-> T.now,
-     node  |-> [n \in DOMAIN st.node |-> st.node[n]],
-     track |-> [n \in DOMAIN st.node |->
+    [T EXCEPT
+     !.node  = [n \in DOMAIN st.node |-> st.node[n]],
+     !.track = [n \in DOMAIN st.node |->
                   [p \in ToSet(st.peers[n]) |->
                       IF Has(Get(T.track, n, Empty), p) THEN T.track[n][p] ELSE st.node[p].seen]],
-     link  |-> [n \in DOMAIN st.link |-> st.link[n]],
-     acct  |-> [a \in {x \in DOMAIN st.acct : st.acct[x].account # "" \/ st.acct[x].credit # 0} |->
+     !.link  = [n \in DOMAIN st.link |-> st.link[n]],
+     !.acct  = [a \in {x \in DOMAIN st.acct : st.acct[x].account # "" \/ st.acct[x].credit # 0} |->
                   [credit |-> st.acct[a].credit, name |-> st.acct[a].account]],
-     trial |-> [n \in {x \in DOMAIN st.bal : x \notin DOMAIN st.link /\ st.bal[x].credit # 0} |-> st.bal[n].credit],
-     nonce |-> T.nonce]
+     !.trial = [n \in {x \in DOMAIN st.bal : x \notin DOMAIN st.link /\ st.bal[x].credit # 0} |-> st.bal[n].credit]]
 
 Finish(T, ln) ==
-    /\ ln.now = T.now
+    /\ Chk("time@StoreTrace:97", F("time") => ln.now = T.now)
     /\ ObsOK(T, ln.st)
-    /\ S' = IF Focus = "all" THEN T ELSE Adopt(T, ln.st)
+    /\ S' = IF Focus = "all" THEN T ELSE Adopt([T EXCEPT !.now = ln.now], ln.st)
     /\ l' = l + 1
     /\ UNCHANGED W
 
@@ -90,18 +118,18 @@ StoreStep(ln) ==
          Finish(AdvanceF(S, a.d).st, ln)
     [] ln.op = "SetNode" ->
          LET e == SetNodeF(S, a.id, NodeRecOf(a)) IN
-         /\ F("nodes") => SameRes(r, e.res)
+         /\ Chk("nodes@StoreTrace:117", F("nodes") => SameRes(r, e.res))
          /\ Finish(e.st, ln)
     [] ln.op = "GetNode" ->
          LET e == GetNodeF(S, a.id) IN
-         /\ F("nodes") => SameRes(r, e.res) /\ (r.ok => r.val = e.res.val)
+         /\ Chk("nodes@StoreTrace:121", F("nodes") => SameRes(r, e.res) /\ (r.ok => r.val = e.res.val))
          /\ Finish(S, ln)
     [] ln.op = "ActiveHosts" ->
-         /\ F("hosts") => r.ok /\ ActiveHostsOK(S, a.kind, a.limit, ToSet(r.val))
+         /\ Chk("hosts@StoreTrace:124", F("hosts") => r.ok /\ ActiveHostsOK(S, a.kind, a.limit, ToSet(r.val)))
          /\ Finish(S, ln)
     [] ln.op = "NodePeers" ->
          LET e == NodePeersF(S, a.id) IN
-         /\ F("peers") => SameRes(r, e.res) /\ (r.ok => ToSet(r.val) = e.res.val)
+         /\ Chk("peers@StoreTrace:128", F("peers") => SameRes(r, e.res) /\ (r.ok => ToSet(r.val) = e.res.val))
          /\ Finish(S, ln)
     [] ln.op = "UpdateNodePeers" ->
          IF ~Has(S.node, a.id)
@@ -110,43 +138,43 @@ StoreStep(ln) ==
          ELSE LET rep  == ToSet(a.peers)
                   dead == IF r.ok THEN ToSet(r.val) ELSE DeadMust(S, a.id, rep)
                   e    == UpdateNodePeersF(S, a.id, rep, a.block, dead) IN
-              /\ F("peers") => r.ok /\ DeadOK(S, a.id, rep, dead)
+              /\ Chk("peers@StoreTrace:137", F("peers") => r.ok /\ DeadOK(S, a.id, rep, dead))
               /\ Finish(e.st, ln)
     [] ln.op = "GetNodeBalance" ->
          LET e == GetNodeBalanceF(S, a.id) IN
-         /\ F("ledger") => SameRes(r, e.res) /\ (r.ok => BalEq(r.val, e.res.val))
+         /\ Chk("ledger@StoreTrace:141", F("ledger") => SameRes(r, e.res) /\ (r.ok => BalEq(r.val, e.res.val)))
          /\ Finish(S, ln)
     [] ln.op = "AddNodeBalance" ->
          LET e == AddNodeBalanceF(S, a.id, a.amt) IN
-         /\ F("ledger") => SameRes(r, e.res)
+         /\ Chk("ledger@StoreTrace:145", F("ledger") => SameRes(r, e.res))
          /\ Finish(e.st, ln)
     [] ln.op = "GetAccountBalance" ->
          LET e == GetAccountBalanceF(S, a.acct) IN
-         /\ F("ledger") => SameRes(r, e.res) /\ BalEq(r.val, e.res.val)
+         /\ Chk("ledger@StoreTrace:149", F("ledger") => SameRes(r, e.res) /\ BalEq(r.val, e.res.val))
          /\ Finish(S, ln)
     [] ln.op = "AddAccountBalance" ->
          LET e == AddAccountBalanceF(S, a.acct, a.amt) IN
-         /\ F("ledger") => SameRes(r, e.res)
+         /\ Chk("ledger@StoreTrace:153", F("ledger") => SameRes(r, e.res))
          /\ Finish(e.st, ln)
     [] ln.op = "AddAccountNode" ->
          LET e == AddAccountNodeF(S, a.acct, a.id) IN
-         /\ F("links") => SameRes(r, e.res)
+         /\ Chk("links@StoreTrace:157", F("links") => SameRes(r, e.res))
          /\ Finish(e.st, ln)
     [] ln.op = "IsAccountNode" ->
          LET e == IsAccountNodeF(S, a.acct, a.id) IN
-         /\ F("links") => SameRes(r, e.res)
+         /\ Chk("links@StoreTrace:161", F("links") => SameRes(r, e.res))
          /\ Finish(S, ln)
     [] ln.op = "GetAccountNodes" ->
          LET e == GetAccountNodesF(S, a.acct) IN
-         /\ F("links") => r.ok /\ ToSet(r.val) = e.res.val
+         /\ Chk("links@StoreTrace:165", F("links") => r.ok /\ ToSet(r.val) = e.res.val)
          /\ Finish(S, ln)
     [] ln.op = "Nonce" ->
          LET e == CheckAndSaveNonceF(S, a.ident, a.v, r.ok) IN
-         /\ F("nonce") => NonceDecisionOK(S, a.ident, a.v, r.ok) /\ SameRes(r, e.res)
+         /\ Chk("nonce@StoreTrace:169", F("nonce") => NonceDecisionOK(S, a.ident, a.v, r.ok) /\ SameRes(r, e.res))
          /\ Finish(IF F("nonce") THEN e.st
                    ELSE IF NonceDecisionOK(S, a.ident, a.v, r.ok) THEN e.st ELSE S, ln)
     [] ln.op = "Stats" ->
-         /\ F("stats") => r.ok /\ StatsOK(S, r.val)
+         /\ Chk("stats@StoreTrace:173", F("stats") => r.ok /\ StatsOK(S, r.val))
          /\ Finish(S, ln)
     [] ln.op = "Reopen" ->
          /\ r.ok
